@@ -310,6 +310,10 @@ fn touch(kind: &'static str, id: u32) -> Tag {
     })
 }
 
+/// With the `plain` feature the element has *no* drop glue (`needs_drop::<E>()` is false), so code
+/// paths specialised on that are exercised; destruction is then unobservable and the ownership
+/// judgements (leak / dead / double drop) are switched off, everything else stays.
+#[cfg(not(feature = "plain"))]
 impl Drop for E {
     fn drop(&mut self) {
         let id = self.0;
